@@ -280,7 +280,7 @@ def run_one(index, seed, runner, tier, opts):
         elif cls == "found" and is_hard(label):
             counters["outcome"]["hard_fault_tolerated"] = counters["outcome"].get("hard_fault_tolerated", 0) + 1
             case = {"files": {k: util.enc_content(v) for k, v in files.items()}, "ops": [fop],
-                    "extra": {"info": info, "no_yaml_shrink": f["label"].startswith("D:")}}
+                    "extra": {"info": info, "no_yaml_shrink": f["label"].startswith("D:"), "seed": seed}}
             violations.append({"case": case, "violation": _violation(f, fop, oc, info, hard=True)})
         elif cls == "found":
             counters["outcome"]["tolerated_found"] += 1
@@ -288,7 +288,7 @@ def run_one(index, seed, runner, tier, opts):
         else:
             counters["outcome"]["silent"] += 1
             case = {"files": {k: util.enc_content(v) for k, v in files.items()}, "ops": [fop],
-                    "extra": {"info": info, "no_yaml_shrink": f["label"].startswith("D:")}}
+                    "extra": {"info": info, "no_yaml_shrink": f["label"].startswith("D:"), "seed": seed}}
             violations.append({"case": case, "violation": _violation(f, fop, oc, info)})
         if sample is None and cls == "loud" and f["label"].startswith("D:"):
             sample = {"run": index, "seed": seed, "workload": wclass, "features": info["features"], "rule": files[RULE][:600],
@@ -323,7 +323,7 @@ def run_one(index, seed, runner, tier, opts):
             if cls == "silent":
                 counters["outcome"]["silent"] += 1
                 case = {"files": {k: util.enc_content(v) for k, v in files.items()}, "ops": ops,
-                        "extra": {"info": info, "no_yaml_shrink": True}}
+                        "extra": {"info": info, "no_yaml_shrink": True, "seed": seed}}
                 v = _violation(f, fop, oc, info)
                 v["signature"] += ":after-predecessor"
                 v["detail"] += " (after a valid non-matching rule had been loaded from the same path in the same process)"
@@ -357,7 +357,7 @@ def run_one(index, seed, runner, tier, opts):
             if cls == "silent":
                 counters["outcome"]["silent"] += 1
                 case = {"files": {k: util.enc_content(v) for k, v in xfiles.items()}, "ops": [fop],
-                        "extra": {"info": info, "no_yaml_shrink": False, "no_control": True}}
+                        "extra": {"info": info, "no_yaml_shrink": False, "no_control": True, "seed": seed}}
                 v = _violation(f, fop, oc, info)
                 v["signature"] += ":non-utf8-name"
                 v["detail"] += " (input file name is not valid UTF-8; the fault makes the input unscannable, so no control run is needed)"
@@ -437,14 +437,15 @@ def evaluate(case, runner):
             runner.apply_write(op)
     no_control = bool((case.get("extra") or {}).get("no_control"))
     lopts = {"log_level": ((case.get("extra") or {}).get("info") or {}).get("log_level")}
+    rseed = int((case.get("extra") or {}).get("seed") or 0)
     if not no_control:
         ctl = copy.deepcopy(fop)
         ctl["faults"] = []
-        res = runner.run([ctl], 0, lopts)
+        res = runner.run([ctl], rseed, lopts)
         if not is_found(res["outcomes"][-1]):
             return []
     runner.materialise(files)
-    res = runner.run(case["ops"], 0, lopts)
+    res = runner.run(case["ops"], rseed, lopts)
     oc = res["outcomes"][-1]
     if not res["fired"][-1]:
         return []
